@@ -209,10 +209,8 @@ class OperatorMapper:
         elif isinstance(left, str) and not isinstance(right, str):
             expression = func.instr(literal(left), right) > 0
         elif not isinstance(left, str) and isinstance(right, str):
-            if hasattr(left, "contains"):
-                expression = left.contains(right)
-            else:
-                expression = left.like("%" + right + "%")
+            # exact substring test as in memory: LIKE would ignore case and read "_" and "%" in the text as wildcards
+            expression = func.instr(left, literal(right)) > 0
         elif isinstance(left, str) and isinstance(right, str):
             expression = literal(right in left)
         else:
